@@ -4,7 +4,7 @@
 # check on it: anything but silence or `no-failing-input-found` (fail-closed translator) is a false alarm
 cd "$(dirname "$0")/.."
 [ -z "$VERIF_REPO" ] && { echo "VERIF_REPO must name a scratch copy"; exit 2; }
-for d in seeded/benign/R*; do
+for d in ${BENIGN:-seeded/benign/R*}; do
   patch=$d/patch.diff
   ( cd "$VERIF_REPO" && git checkout -q -- . && git apply --3way "$OLDPWD/$patch" 2>/dev/null && git reset -q ) || { echo "== $d: patch does not apply"; continue; }
   echo "== $d"
